@@ -308,6 +308,9 @@ func (m *Muxer) validate() error {
 	if canvasW > container.MaxCanvasSize || canvasH > container.MaxCanvasSize {
 		return fmt.Errorf("%w: canvas %dx%d exceeds the maximum of %d", ErrMuxValidation, canvasW, canvasH, container.MaxCanvasSize)
 	}
+	if uint64(canvasW)*uint64(canvasH) >= container.MaxImageArea {
+		return fmt.Errorf("%w: canvas %dx%d exceeds the maximum area the parsers accept", ErrMuxValidation, canvasW, canvasH)
+	}
 	for i, f := range m.frames {
 		fw, fh := frameDimensions(f.data)
 		if fw == 0 || fh == 0 {
